@@ -671,7 +671,9 @@ class TDS(BaseRoutine):
             freq = 1.0
         elif system.dae.n == 1:
             B = matrix(system.dae.gx)
-            self.solver.linsolve(system.dae.gy, B)
+            # use the returned solution: not every back-end overwrites the right-hand side in place
+            sol = self.solver.linsolve(system.dae.gy, B)
+            B = matrix(np.reshape(sol, B.size))
             As = system.dae.fx - system.dae.fy * B
             freq = max(abs(As[0, 0]), 1)
         else:
